@@ -82,7 +82,7 @@ static void on_sig(int s, siginfo_t *si, void *uc_) {
 
 // ---- guest memory bookkeeping (page granular) ----
 #define MAXMAP 16
-static struct { uint64_t start, len; } maps[MAXMAP];
+static struct { uint64_t start, len; int prot; } maps[MAXMAP];
 static int nmaps = 0;
 static uint64_t code_start = 0, code_len = 0;
 
@@ -95,7 +95,7 @@ static int map_pages(uint64_t start, uint64_t len, int prot) {
   if (start < 0x10000 || start + len > 0x700000000000ULL || start + len < start) return -1;
   void *p = mmap((void*)start, len, prot, MAP_PRIVATE|MAP_ANONYMOUS|MAP_FIXED_NOREPLACE, -1, 0);
   if (p == MAP_FAILED || (uint64_t)p != start) { if (p != MAP_FAILED) munmap(p, len); return -1; }
-  maps[nmaps].start = start; maps[nmaps].len = len; nmaps++;
+  maps[nmaps].start = start; maps[nmaps].len = len; maps[nmaps].prot = prot; nmaps++;
   return 0;
 }
 static int is_mapped(uint64_t a, uint64_t n) {
@@ -150,7 +150,7 @@ int main(void) {
       skip_case=1; printf("skip\n");
     } else if (!strcmp(w[0],"prot") && nw==3) {
       uint64_t start = strtoull(w[1],0,16); unsigned p = strtoul(w[2],0,16);
-      int done=0; for (int i=0;i<nmaps;i++) if (maps[i].start==start) { int pr=0; if(p&1)pr|=PROT_READ; if(p&2)pr|=PROT_WRITE|PROT_READ; if(p&4)pr|=PROT_EXEC; mprotect((void*)start, maps[i].len, pr); done=1; }
+      int done=0; for (int i=0;i<nmaps;i++) if (maps[i].start==start) { int pr=0; if(p&1)pr|=PROT_READ; if(p&2)pr|=PROT_WRITE|PROT_READ; if(p&4)pr|=PROT_EXEC; mprotect((void*)start, maps[i].len, pr); maps[i].prot=pr; done=1; }
       printf(done?"ok\n":"skip\n");
     } else if (!strcmp(w[0],"setregs") && nw==2) {
       char *r=w[1]; for(int i=0;i<16;i++){ guest.gpr[i]=strtoull(r,&r,16); if(*r==',') r++; } guest.rip = strtoull(r,0,16); printf("-\n");
@@ -191,8 +191,10 @@ int main(void) {
       uint64_t a=strtoull(w[1],0,16), n=strtoull(w[2],0,16);
       if (skip_case) printf("skip\n");
       else if (n==0 || !is_mapped(a,n)) printf("err\n");
-      else { // temporarily make readable
-        printf("ok "); for (uint64_t k=0;k<n;k++) printf("%02x", ((uint8_t*)a)[k]); printf("\n"); }
+      else { // temporarily make readable (a PROT_NONE page would fault in this process itself)
+        for (int i=0;i<nmaps;i++) if (!(maps[i].prot & PROT_READ)) mprotect((void*)maps[i].start, maps[i].len, maps[i].prot|PROT_READ);
+        printf("ok "); for (uint64_t k=0;k<n;k++) printf("%02x", ((uint8_t*)a)[k]); printf("\n");
+        for (int i=0;i<nmaps;i++) if (!(maps[i].prot & PROT_READ)) mprotect((void*)maps[i].start, maps[i].len, maps[i].prot); }
     } else printf("-\n");
     fflush(stdout);
   }
